@@ -140,10 +140,28 @@ structure MSt where
   recomputes : Nat := 0
   pairChecks : Nat := 0
   specChecks : Nat := 0
+  orc : Option St := none       -- the detector model in lockstep on the real inputs; dropped after the first disagreement
 
 def monInit (f : List String) : MSt :=
   let c := cfgOf f
-  { cfg := c, a := { lastThresh := c.tempThresh }, b := { lastThresh := c.tempThresh } }
+  { cfg := c, a := { lastThresh := c.tempThresh }, b := { lastThresh := c.tempThresh }, orc := some (init f) }
+
+/-- the first frame on which the real detector's output differs from the model's, named after what differs and in which
+regime (this also judges what the declarative monitors leave alone, e.g. verdicts after an FFC period) -/
+def lockstepVerdict (c : DCfg) (who : String) (ffcOrReset paired : Bool) (exp got : List String) : List String :=
+  if exp == got then [] else
+  match exp, got with
+  | [_, me, te, be], [_, mg, tg, bg] =>
+    (if te != tg || be != bg then
+       [if c.dynamic then s!"prop=C15 reason=threshold-or-background-differs-from-the-model-{who}"
+        else s!"prop=C07 reason=fixed-threshold-changed-{who}"] else []) ++
+    (if me != mg then
+       [if ffcOrReset then s!"prop=C09 reason=verdict-differs-from-the-model-after-an-ffc-period-or-reset-{who}"
+        else if c.dynamic then s!"prop=C15 reason=verdict-under-the-dynamic-threshold-differs-from-the-model-{who}"
+        else s!"prop=C07 reason=verdict-differs-from-the-model-{who}"] ++
+       (if paired then [s!"prop=C08 reason=verdict-differs-from-the-model-in-a-border-or-cold-pixel-pair-{who}"] else [])
+     else [])
+  | _, _ => [s!"prop=C07 reason=no-output-{who}"]
 
 def px (c : DCfg) (a : Array Nat) (y x : Nat) : Nat := a.getD (y * c.resX + x) 0
 
@@ -220,16 +238,26 @@ def monStep (m : MSt) (bl : Block) : MSt × List String :=
         [if c.dynamic && m.resets > 0 then "prop=C09 reason=result-depends-on-frames-before-ffc-dynamic-threshold-kept-across-reset"
          else "prop=C09 reason=result-depends-on-frames-before-ffc-or-reset"] else []
     let fp := if panics.isEmpty then [] else ["prop=C07 reason=panic"]
-    ({ m with a := a', b := b', pendB := none, frames := m.frames + 1,
+    let (orc, fo) : Option St × List String := match m.orc with
+      | none => (none, [])
+      | some st =>
+        let (st', exp) := step st bl
+        let ex (w : String) := ((exp.map fields).find? (fun o => o.head? == some w)).getD []
+        let fr := m.a.everAffected || m.b.everAffected || m.resets > 0 ||
+                  Det.affectedBy c (int ton) (int lf) || Det.affectedBy c tb lb
+        let v := lockstepVerdict c "a" fr m.eqC08 (ex "a") oa ++ lockstepVerdict c "b" fr m.eqC08 (ex "b") ob
+        (if v.isEmpty then some st' else none, v)
+    ({ m with a := a', b := b', pendB := none, orc := orc, frames := m.frames + 1,
               ffcFrames := m.ffcFrames + (if Det.affectedBy c (int ton) (int lf) then 1 else 0),
               recomputes := m.recomputes + ra + rb,
               pairChecks := m.pairChecks + (if m.eqC08 || m.eqC09 then 1 else 0),
               specChecks := m.specChecks + (if !c.dynamic && !a'.everAffected then 1 else 0) },
-     fa' ++ fb' ++ f8 ++ f9 ++ fp)
-  | ["e", ton, lf, hex] => ({ m with pendB := some (int ton, int lf, parseHex hex) }, [])
+     fa' ++ fb' ++ f8 ++ f9 ++ fp ++ fo)
+  | ["e", ton, lf, hex] =>
+    ({ m with pendB := some (int ton, int lf, parseHex hex), orc := m.orc.map fun st => (step st bl).1 }, [])
   | ["r"] =>
     ({ m with a := { m.a with hist := #[], bgFrames := 0 }, b := { m.b with hist := #[], bgFrames := 0 },
-              resets := m.resets + 1 }, [])
+              resets := m.resets + 1, orc := m.orc.map fun st => (step st bl).1 }, [])
   | ["x", "C08", v] => ({ m with eqC08 := v == "1" }, [])
   | ["x", "C09", v] => ({ m with eqC09 := v == "1" }, [])
   | _ => (m, [])
